@@ -200,8 +200,13 @@ def listMax : List Int → Int
   | [] => 0
   | x :: xs => xs.foldl max x
 
-/-- `max(max(delvals)) == 0` -/
-def icSkip (r f : Triple) : Bool := listMax (lexMax r f) == 0
+/-- the skip test of the tree BEFORE repair D34: `max(max(delvals)) == 0` — the largest element of the
+lexicographically larger value list.  Not "all zero" when values are negative (`(0:0:0) (-1:5:5)` is skipped).
+Kept for the demonstration theorem `C14.icSkipOld_drops_nonzero` only; no model function uses it. -/
+def icSkipOld (r f : Triple) : Bool := listMax (lexMax r f) == 0
+
+/-- `not any(any(d) for d in delvals)` (repaired code, D34): skip only when every value is zero -/
+def icSkip (r f : Triple) : Bool := !(r.any (· != 0) || f.any (· != 0))
 
 def icWrite (icLine : IcTable) (e : Entry) : Option W :=
   let r := norm e.r
